@@ -45,7 +45,8 @@ invariants relating memory and the latest state with the hypothesis about such r
 `GetSwitchParams` / `SetSwitchParams`); the unkeyed read-through cache of the seeded shape is what the interpreter makes of the
 cached programs (`cached_programs_are_read_through`), it is invisible as long as every read is at the latest height
 (`readThrough_cache_invisible_without_foreign_reads`) and visible after a restart followed by a read at an older height
-(`readThrough_historical_read_breaks_determinism`).
+(`readThrough_historical_read_breaks_determinism`); a derived structure cached under a fingerprint that determines it is invisible
+(`fingerprint_cache_process_history_irrelevant`), under the length of the list it is not (`length_fingerprint_breaks_determinism`).
 Scheduler-, allocator- and dependency-level nondeterminism is outside the model: validated by repeated-process runs.
 -/
 namespace FxVerif.Props.C17
@@ -949,6 +950,61 @@ theorem readThrough_cache_invisible_without_foreign_reads (evs₁ evs₂ : List 
   rw [r₁.1, r₁.2, r₂.1, r₂.2, hb, hs]
   exact ⟨rfl, rfl⟩
 
+/-- a derived structure cached under an INJECTIVE fingerprint of the parameters (the parameters themselves, a collision-free
+digest) is invisible: all process histories — restarts, state syncs, served executions, reads at older heights — with equal block
+histories give equal states and outputs, from any memories of that form -/
+theorem fingerprint_cache_process_history_irrelevant {F D : Type} [DecidableEq F] (fp : Params → F) (derive : Params → D)
+    (ask : D → String → Bool) (hinj : ∀ p q, fp p = fp q → derive p = derive q)
+    (evs₁ evs₂ : List (VEv ParMsg)) (hb : blocksOfV evs₁ = blocksOfV evs₂) (n₁ n₂ : VNode (Option (F × D)) ParStore)
+    (hs : n₁.st = n₂.st) (h₁ : fingerInv fp derive n₁.mem) (h₂ : fingerInv fp derive n₂.mem) :
+    (runV (fingerHandler fp derive ask) none n₁ evs₁).1.st = (runV (fingerHandler fp derive ask) none n₂ evs₂).1.st ∧
+    (runV (fingerHandler fp derive ask) none n₁ evs₁).2 = (runV (fingerHandler fp derive ask) none n₂ evs₂).2 := by
+  have key : ∀ (m : Option (F × D)) (s : ParStore) (i : ParMsg), fingerInv fp derive m →
+      (fingerHandler fp derive ask m s i).2 = derivePure derive ask s i ∧ fingerInv fp derive (fingerHandler fp derive ask m s i).1 := by
+    intro m s i hm
+    cases i with
+    | update p ok => exact ⟨rfl, hm⟩
+    | use name =>
+      have fresh : fingerInv fp derive (some (fp (paramsOf s), derive (paramsOf s))) := by
+        intro f d h; simp only [Option.some.injEq, Prod.mk.injEq] at h; exact ⟨paramsOf s, h.1.symm, h.2.symm⟩
+      cases m with
+      | none => exact ⟨rfl, fresh⟩
+      | some fd =>
+        obtain ⟨f, d⟩ := fd
+        simp only [fingerHandler, derivePure]
+        by_cases hf : f = fp (paramsOf s)
+        · simp only [hf, if_true]
+          obtain ⟨p, hp, hd⟩ := hm f d rfl
+          have : derive p = derive (paramsOf s) := hinj _ _ (hp.symm.trans hf)
+          refine ⟨by rw [hd, this], ?_⟩
+          rw [← hf]; exact hm
+        · simp only [hf, if_false]
+          exact ⟨trivial, fresh⟩
+  have hindep : ∀ (m m' : Option (F × D)) (s : ParStore) (i : ParMsg), fingerInv fp derive m → fingerInv fp derive m' →
+      (fingerHandler fp derive ask m s i).2 = (fingerHandler fp derive ask m' s i).2 :=
+    fun m m' s i hm hm' => by rw [(key m s i hm).1, (key m' s i hm').1]
+  have r₁ := FxVerif.Proofs.C17.runV_eq_pure_on (fingerHandler fp derive ask) none (fun m _ => fingerInv fp derive m) (fun _ => True)
+    (fun _ f d h => by cases h) (fun m s i _ hm => (key m s i hm).2) (fun m s i _ hm => (key m s i hm).2)
+    (fun m _ s' _ i _ hm => (key m s' i hm).2) hindep evs₁ n₁ (fun _ _ => trivial) h₁
+  have r₂ := FxVerif.Proofs.C17.runV_eq_pure_on (fingerHandler fp derive ask) none (fun m _ => fingerInv fp derive m) (fun _ => True)
+    (fun _ f d h => by cases h) (fun m s i _ hm => (key m s i hm).2) (fun m s i _ hm => (key m s i hm).2)
+    (fun m _ s' _ i _ hm => (key m s' i hm).2) hindep evs₂ n₂ (fun _ _ => trivial) h₂
+  rw [r₁.1, r₁.2, r₂.1, r₂.2, hb, hs]
+  exact ⟨rfl, rfl⟩
+
+/-- the LENGTH of the list is not such a fingerprint: after a second governance change to a list of the same length, a node that
+kept its process answers from the structure built for the first list, a restarted node from the second — no read at another
+height is needed, two cooperating changes are -/
+theorem length_fingerprint_breaks_determinism :
+    (runV (fingerHandler List.length id (fun d n => d.contains n)) none ⟨none, none, []⟩
+      [.deliver (.update ["a"] true), .deliver (.use "b"), .deliver (.update ["b"] true), .deliver (.use "b")]).2 ≠
+    (runV (fingerHandler List.length id (fun d n => d.contains n)) none ⟨none, none, []⟩
+      [.deliver (.update ["a"] true), .deliver (.use "b"), .deliver (.update ["b"] true), .restart, .deliver (.use "b")]).2 ∧
+    (runV (fingerHandler List.length id (fun d n => d.contains n)) none ⟨none, none, []⟩
+      [.deliver (.update ["a"] true), .deliver (.use "b"), .deliver (.update ["b", "c"] true), .deliver (.use "b")]).2 =
+    (runV (fingerHandler List.length id (fun d n => d.contains n)) none ⟨none, none, []⟩
+      [.deliver (.update ["a"] true), .deliver (.use "b"), .deliver (.update ["b", "c"] true), .restart, .deliver (.use "b")]).2 := by decide
+
 -- non-vacuity
 example : committing (.deliver (.register "p" 7 true)) = true ∧ committing (.serve (.register "p" 7 true)) = false ∧
     committing (.deliver (.register "p" 7 false)) = false ∧ committing (.serve (.use "p")) = true := by decide
@@ -996,4 +1052,6 @@ example : latestOnly (.deliver (.update ["a"] true)) = true ∧ latestOnly (.ser
 example : cohP (some ["a"]) (some ["a"]) ∧ cohP none (some ["a"]) := ⟨fun p hp => by cases hp; rfl, fun p hp => by cases hp⟩
 example : (runV (progHandler switchGet switchSet) none ⟨some ["stale"], none, []⟩
     [.deliver (.update ["send"] true), .restart, .serveAt 0 (.use "x"), .deliver (.use "send"), .sync, .serveAt 0 (.use "y"), .deliver (.use "other")]).2 = [false, true, false] := by decide
+example : fingerInv (fun p : Params => p) (fun p => p.length) (some (["a"], 1)) := fun f d h => by
+  simp only [Option.some.injEq, Prod.mk.injEq] at h; exact ⟨["a"], h.1.symm, h.2.symm⟩
 end FxVerif.Props.C17
